@@ -14,7 +14,7 @@ RUN_IMPORT = "Reactive.AmbientRun"
 HARNESS = "iso"
 HARNESS_ARGS = ["c20"]
 ALLOWED_AXIOMS = []
-READY = False
+READY = True
 SHRINK_PREFIX = 5
 IMPL_TIMEOUT = 1500
 
@@ -31,9 +31,9 @@ def _sb_target():
 HARNESS_ENV = {"H_ISO_SB": os.path.join(_sb_target(), "release", "h_iso")}
 
 RULE = ("a case = (obs sandboxed ooo pipeline fine programs schedule): 2-3 view programs from the grammar text / "
-        "context-printing leaf / reactive closure / element / sequence / <Provider> / Suspend(gate) / <Suspense> / "
+        "context-printing leaf / reactive closure (two kinds: rendered under a fixed owner, or under a timing-dependent one) / element / sequence / <Provider> / Suspend(gate) / <Suspense> / "
         "Resource and OnceResource whose fetcher reads context before and after a gate / on_cleanup / StoredValue "
-        "and RwSignal allocation + later read; rendered concurrently like integrations/utils build_response + from_app "
+        "and RwSignal allocation + later read / a reactive_graph::spawn background task reading a handle (oracle-only cases); rendered concurrently like integrations/utils build_response + from_app "
         "(hand transcription, or the real from_app in the sandboxed build) on the harness-owned executor. Coarse "
         "schedules (start / complete gate g / run request to quiescence / finish) are enumerated exhaustively as all "
         "interleavings of the two requests' action lists for small program pairs and drawn from the PRNG (VERIF_SEED) "
@@ -87,14 +87,14 @@ TECHNIQUE = ("Coq proof (non-interference: invariant 'inside a wrapper the ambie
              "correspondence of the extracted model with real concurrent SSR renders + solo-replay oracle")
 
 # ------------------------------------------------------------------------------------------ programs
-TEXT, LEAF, DYN, EL, SEQ, PROVIDE, SUSPEND, SUSPENSE, RESOURCE, CLEANUP, ALLOC, ITEM, DYNL = range(13)
+TEXT, LEAF, DYN, EL, SEQ, PROVIDE, SUSPEND, SUSPENSE, RESOURCE, CLEANUP, ALLOC, ITEM, DYNL, BGREAD = range(14)
 
 
 class Gen:
     """random view program. flat = awaits are not nested (children of async nodes are synchronous views)"""
 
-    def __init__(self, rng, maxdepth, ngates, flat):
-        self.rng, self.maxdepth, self.ng, self.flat = rng, maxdepth, ngates, flat
+    def __init__(self, rng, maxdepth, ngates, flat, bg=False):
+        self.rng, self.maxdepth, self.ng, self.flat, self.bg = rng, maxdepth, ngates, flat, bg
         self.p = 0
         self.cid = 0
         self.nslot = 0
@@ -111,6 +111,8 @@ class Gen:
             # DYNL where the owner the closure is rendered under does not depend on timing
             return [DYN if top else DYNL, self.probe()]
         if r < 0.9 and slots:
+            if self.bg and not sync and self.rng.random() < 0.6:
+                return [BGREAD, self.rng.randrange(self.ng), self.probe(), self.rng.choice(slots)]
             return [ITEM, self.probe(), self.rng.choice(slots)]
         return [TEXT]
 
@@ -143,13 +145,15 @@ class Gen:
         return [ALLOC, s, self.view(d + 1, sync, slots + [s], top, insus)]
 
 
-def gen_prog(rng, maxdepth, ngates, flat):
-    return Gen(rng, maxdepth, ngates, flat).view(0, False, [])
+def gen_prog(rng, maxdepth, ngates, flat, bg=False):
+    if bg:      # handles in scope everywhere, so that background reads are frequent
+        return [ALLOC, 51, [ALLOC, 151, Gen(rng, maxdepth, ngates, flat, bg).view(0, False, [51, 151])]]
+    return Gen(rng, maxdepth, ngates, flat, bg).view(0, False, [])
 
 
 def n_gates(p):
     m = 0
-    if p and p[0] == SUSPEND:
+    if p and p[0] in (SUSPEND, BGREAD):
         m = p[1] + 1
     if p and p[0] == RESOURCE:
         m = p[2] + 1
@@ -160,7 +164,7 @@ def n_gates(p):
 
 
 def has_async(p):
-    return bool(p) and (p[0] in (SUSPEND, RESOURCE) or any(has_async(c) for c in p[1:] if isinstance(c, list)))
+    return bool(p) and (p[0] in (SUSPEND, RESOURCE, BGREAD) or any(has_async(c) for c in p[1:] if isinstance(c, list)))
 
 
 SMALL = [
@@ -242,8 +246,9 @@ def generate(rng, tier):
     for _ in range(1500 if quick else 25000):
         n = rng.choice([2, 2, 3])
         ng = rng.choice([1, 2, 3])
-        progs = [gen_prog(rng, rng.choice([2, 3, 4]), ng, rng.random() < 0.3) for _ in range(n)]
-        sb = rng.randrange(2)
+        bg = rng.random() < 0.4      # background tasks (reactive_graph::spawn) reading arena handles
+        progs = [gen_prog(rng, rng.choice([2, 3, 4]), ng, rng.random() < 0.3, bg) for _ in range(n)]
+        sb = rng.randrange(2) if not bg else int(rng.random() < 0.8)
         sched = [rng.randrange(1000) for _ in range(rng.randrange(4, 60))]
         yield dict(case=[1, sb, rng.randrange(2), rng.randrange(2) if sb else 0, 1, progs, sched],
                    kind="random-fine/solo", compare=False)
@@ -284,7 +289,13 @@ def wf_prog(p, slots=()):
         return len(a) == 2 and ints(a[:1]) and a[0] < 900 and wf_prog(a[1], tuple(slots) + (a[0],))
     if op == ITEM:
         return len(a) == 2 and ints(a) and a[1] in slots
+    if op == BGREAD:
+        return len(a) == 3 and ints(a) and a[0] < 8 and a[2] in slots
     return False
+
+
+def has_bg(p):
+    return p[0] == BGREAD or any(has_bg(c) for c in p[1:] if isinstance(c, list))
 
 
 def async_depth(p):
@@ -296,7 +307,7 @@ def probes(p):
     out = []
     if p[0] in (LEAF, DYN, ITEM, DYNL):
         out.append(p[1])
-    if p[0] == SUSPEND:
+    if p[0] in (SUSPEND, BGREAD):
         out.append(p[2])
     if p[0] == RESOURCE:
         out += p[3:6]
@@ -314,7 +325,7 @@ def sync_only(p, inside=False):
 
 
 def no_async_dyn(p):
-    if p[0] in (DYN, DYNL, SUSPEND, RESOURCE, SUSPENSE):
+    if p[0] in (DYN, DYNL, SUSPEND, RESOURCE, SUSPENSE, BGREAD):
         return False
     return all(no_async_dyn(c) for c in p[1:] if isinstance(c, list))
 
@@ -348,7 +359,7 @@ def valid_case(item):
         ps = probes(p)
         if len(ps) != len(set(ps)) or any(q < 1 or q > 900 for q in ps):
             return False
-        if item.get("compare", True) and async_depth(p) > 1:
+        if item.get("compare", True) and (async_depth(p) > 1 or has_bg(p)):
             return False
     if fine:
         return all(isinstance(x, int) and x >= 0 for x in sched)
@@ -364,6 +375,8 @@ def valid_case(item):
 def own_event(r, e):
     """does this probe observation of request r (1-based) mention only r's state?"""
     probe, kind, owner_req, t0, t1, item = e
+    if kind == 8:      # background task behind Sandboxed only: the arena item is all it is promised
+        return "arena item %d" % item if item >= 0 and item // 10000 != r else None
     if owner_req != r:
         return "ambient owner of request %d" % owner_req if owner_req else "no ambient owner"
     if t0 != 100 + r:
@@ -451,7 +464,7 @@ def nontrivial(item, model):
 
 def describe(it):
     c = it["case"]
-    names = ["text", "leaf", "dyn", "el", "seq", "provide", "suspend", "suspense", "resource", "cleanup", "alloc", "item", "dynl"]
+    names = ["text", "leaf", "dyn", "el", "seq", "provide", "suspend", "suspense", "resource", "cleanup", "alloc", "item", "dynl", "bgread"]
 
     def pv(p):
         if not isinstance(p, list) or not p:
